@@ -142,6 +142,7 @@ def main(argv=None):
 
     # ---- refuted obligations: known finding (re-proved outside its region) or violation
     known_lines = []
+    outside_region = []
     violations = []
     stale = []
     for name in refuted:
@@ -156,6 +157,8 @@ def main(argv=None):
             res2 = solve.discharge(obs2, timeout_s)
             if not prob2 and obs2 and all(r['status'] == 'proved' for r in res2):
                 handled = True
+                n_dis += 1
+                outside_region.append(name)
                 for f in fs:
                     known_lines.append('KNOWN-FINDING: property=%s %s' % (pid, f['what']))
             elif not prob2 and all(r['status'] in ('proved', 'unknown') for r in res2):
@@ -307,6 +310,7 @@ def main(argv=None):
         'covers_satisfiable': covers_ok,
         'canaries_failed_as_expected': canaries_ok,
         'known_findings': known_lines,
+        'discharged_only_outside_known_finding_region': outside_region,
         'undecided': unknown,
         'refuted': refuted,
         'checker_problems': ['%s %s: %s' % p for p in problems],
